@@ -41,6 +41,11 @@ def run(ctx):
               f"function: {facts[0]}  method: {facts[1]}")
     _check_predict(ctx, prog.func("mokapot.brew._predict"))
     _check_reset_path(ctx, prog.func("mokapot.brew.brew"))
+    # calibrated scores must go back to the PSMs they were computed for:
+    # the fold/slot/row bookkeeping of _predict is a clause of this property
+    # too (shared with C02b/d)
+    from .c02 import _predict as _c02_predict
+    _c02_predict(ctx, prog.func("mokapot.brew._predict"))
 
 
 def _check_twin(ctx, f):
@@ -224,6 +229,15 @@ def _check_predict(ctx, f):
     ctx.check(T.of(call.args[2]) == ("param", "test_fdr"),
               "C11b-eval-fdr", f, "calibration uses the caller's test_fdr",
               f"third argument is {ast.unparse(call.args[2])}", node=call)
+    b = prog.bind(prog.func(TWINS[0]), call)
+    d = b.get("desc")
+    ctx.check(d is None or (isinstance(d, ast.Constant)
+                            and d.value is True),
+              "C11b-model-scores-descending", f,
+              "learned scores are calibrated as higher = better",
+              f"calibration is called with desc={ast.unparse(d) if d else None}"
+              ": the direction of an input feature says nothing about the "
+              "learned score, which is always higher-is-better", node=call)
     if sname and tname:
         # both lists are created as one empty list per fold and filled per
         # enumerate index of the same fold slices
